@@ -85,18 +85,19 @@ func stripConv(v ssa.Value) ssa.Value {
 
 // Inv is one inventory run.
 type Inv struct {
-	w      *World
-	r      *Report
-	rule   string
-	tr     *Tracer
-	macc   map[string][]string
-	vetted map[string]string
-	used   map[string]bool
-	keys   map[string]int
+	w       *World
+	r       *Report
+	rule    string
+	tr      *Tracer
+	macc    map[string][]string
+	vetted  map[string]string
+	usedSem map[string]bool
+	used    map[string]bool
+	keys    map[string]int
 }
 
 func newInv(w *World, r *Report, rule string, vetted map[string]string) *Inv {
-	iv := &Inv{w: w, r: r, rule: rule, tr: w.Tracer(), vetted: vetted, used: map[string]bool{}, keys: map[string]int{}}
+	iv := &Inv{w: w, r: r, rule: rule, tr: w.Tracer(), vetted: vetted, used: map[string]bool{}, usedSem: map[string]bool{}, keys: map[string]int{}}
 	iv.macc = w.maccPerms()
 	return iv
 }
@@ -817,18 +818,19 @@ func (iv *Inv) discharge(s invSite, reach map[*ssa.Function]*ssa.Function) {
 		iv.r.OK(iv.rule, key, pos, how)
 		return
 	}
+	// numeric vetting arguments are keyed by the semantic signature of the operand (function-independent)
+	for i, sk := range iv.semKeys(s) {
+		if os.Getenv("C4E_DEBUG") != "" && i == 0 {
+			fmt.Printf("SEM\t%q\t%q\n", key, sk)
+		}
+		if reason, isVetted := vettedSemantic[sk]; isVetted {
+			iv.usedSem[sk] = true
+			iv.r.Assume(iv.rule, key, pos, "vetted ("+sk+"): "+reason)
+			return
+		}
+	}
 	if reason, isVetted := iv.vetted[key]; isVetted {
 		iv.used[key] = true
-		// a vetted argument is about one particular operand: the entry stops applying when the operand changes
-		if fp := operandFingerprint(s); fp != "" {
-			if os.Getenv("C4E_DEBUG") != "" {
-				fmt.Printf("FP\t%q: %q,\n", key, fp)
-			}
-			if want, has := vettedOperands[key]; has && want != fp {
-				iv.r.Bad(iv.rule, key, pos, "the vetted argument for this operation was made for the operand "+want+"; the operand is now "+fp+" and nothing discharges it; reached via "+PathTo(reach, s.fn))
-				return
-			}
-		}
 		iv.r.Assume(iv.rule, key, pos, "vetted: "+reason)
 		return
 	}
@@ -1960,65 +1962,19 @@ func (iv *Inv) Discover(roots []*ssa.Function, rule, label string) {
 	}
 }
 
-// operandFingerprint renders the operand a numeric vetting argument is about: the divisor of a division, the
-// receiver of Int64(). Empty for classes whose vetting is not about one operand.
-func operandFingerprint(s invSite) string {
-	switch s.class {
-	case "quo":
-		if c, ok := s.instr.(ssa.CallInstruction); ok {
-			a := c.Common().Args
-			if len(a) > 0 {
-				return renderVal(a[len(a)-1], 0)
-			}
-		}
-	case "intdiv":
-		if b, ok := s.instr.(*ssa.BinOp); ok {
-			return renderVal(b.Y, 0)
-		}
-	case "int64":
-		if c, ok := s.instr.(ssa.CallInstruction); ok {
-			a := c.Common().Args
-			if len(a) > 0 {
-				return renderVal(a[0], 0)
-			}
-		}
-	case "coinsub", "newcoin":
-		if c, ok := s.instr.(ssa.CallInstruction); ok {
-			var parts []string
-			for _, a := range c.Common().Args {
-				parts = append(parts, renderVal(a, 0))
-			}
-			return strings.Join(parts, " ; ")
-		}
-	case "index":
-		switch x := s.instr.(type) {
-		case *ssa.IndexAddr:
-			return renderVal(x.X, 0) + " [ " + renderVal(x.Index, 0) + " ]"
-		case *ssa.Index:
-			return renderVal(x.X, 0) + " [ " + renderVal(x.Index, 0) + " ]"
-		}
-	}
-	return ""
-}
-
-// vettedOperands: the operand each numeric vetted entry was written for (see operandFingerprint).
-var vettedOperands = map[string]string{
-	"coinsub @ x/cfedistributor/keeper.Keeper.StartDistributionProcess : sdk/types.DecCoins.Sub #2":              "phi ; keeper.calculatePercentage(<*x/cfedistributor/types.SubDistributor>.Destinations.BurnShare,<sdk/types.DecCoins>)",
-	"coinsub @ x/cfedistributor/keeper.Keeper.StartDistributionProcess : sdk/types.DecCoins.Sub":                 "phi ; keeper.calculatePercentage(<**x/cfedistributor/types.DestinationShare>.Share,<sdk/types.DecCoins>)",
-	"coinsub @ x/cfedistributor/keeper.Keeper.prepareCoinToDistributeForMainAccount : sdk/types.DecCoins.Sub #2": "types.DecCoins.Sub(types.NewDecCoinsFromCoins(keeper.Keeper.GetAccountCoinsForModuleAccount(<x/cfedistributor/keeper.Keeper>,<sdk/types.Context>,\"distributor_main_account\")),keeper.getRamainsSum(<*[]x/cfedistributor/types.State>)) ; <sdk/types.DecCoins>",
-	"coinsub @ x/cfedistributor/keeper.Keeper.prepareCoinToDistributeForMainAccount : sdk/types.DecCoins.Sub":    "types.NewDecCoinsFromCoins(keeper.Keeper.GetAccountCoinsForModuleAccount(<x/cfedistributor/keeper.Keeper>,<sdk/types.Context>,\"distributor_main_account\")) ; keeper.getRamainsSum(<*[]x/cfedistributor/types.State>)",
-	"coinsub @ x/cfevesting/keeper.Keeper.UnlockUnbondedContinuousVestingAccountCoins : sdk/types.Coins.Sub #2":  "types.AccountKeeper.GetAccount(…,…,…).(*sdk/x/auth/vesting/types.ContinuousVestingAccount)#0.BaseVestingAccount.OriginalVesting ; <*[1]sdk/types.Coin>[:]",
-	"coinsub @ x/cfevesting/keeper.Keeper.UnlockUnbondedContinuousVestingAccountCoins : sdk/types.Coins.Sub":     "types.AccountKeeper.GetAccount(…,…,…).(*sdk/x/auth/vesting/types.ContinuousVestingAccount)#0.BaseVestingAccount.OriginalVesting ; <*[1]sdk/types.Coin>[:]",
-	"index @ x/cfedistributor/keeper.Keeper.addSharesToState : index []x/cfedistributor/types.State #2":          "phi [ phi ]",
-	"index @ x/cfedistributor/keeper.Keeper.addSharesToState : index []x/cfedistributor/types.State":             "phi [ phi ]",
-	"index @ x/cfeminter/types.Params.validateMintersEndTimeValue : index []*x/cfeminter/types.Minter #2":        "<*x/cfeminter/types.Params>.Minters [ (<int> - 1) ]",
-	"index @ x/cfeminter/types.Params.validateMintersEndTimeValue : index []*x/cfeminter/types.Minter #3":        "<*x/cfeminter/types.Params>.Minters [ (<int> - 1) ]",
-	"index @ x/cfeminter/types.Params.validateMintersEndTimeValue : index []*x/cfeminter/types.Minter":           "<*x/cfeminter/types.Params>.Minters [ (<int> - 1) ]",
-	"int64 @ x/cfevesting/keeper.Keeper.WithdrawAllAvailable$1 : math.Int.Int64":                                 "?.Amount",
-	"newcoin @ x/cfevesting/keeper.Keeper.UnlockUnbondedContinuousVestingAccountCoins : sdk/types.NewCoin":       "<*sdk/types.Coin>.Denom ; types.Dec.TruncateInt(types.Dec.Quo(types.Dec.Mul(types.NewDecFromInt(<*sdk/types.Coin>.Amount),types.NewDecFromInt(types.Coins.AmountOf(….OriginalVesting,….Denom))),types.NewDecFromInt(types.Coins.AmountOf(types.ContinuousVestingAccount.GetVestingCoins(…#0,types.Context.BlockTime(<sdk/types.Context>)),<*sdk/types.Coin>.Denom))))",
-	"newcoin @ x/cfevesting/keeper.Keeper.WithdrawAllAvailable : sdk/types.NewCoin #2":                           "keeper.Keeper.GetParams(<*x/cfevesting/keeper.Keeper>,<sdk/types.Context>).Denom ; phi",
-	"newcoin @ x/cfevesting/keeper.Keeper.newVestingAccount : sdk/types.NewCoin #2":                              "keeper.Keeper.GetParams(<*x/cfevesting/keeper.Keeper>,<sdk/types.Context>).Denom ; types.Dec.TruncateInt(types.Dec.Sub(types.NewDecFromInt(<math.Int>),types.Dec.Mul(types.NewDecFromInt(<math.Int>),<sdk/types.Dec>)))",
-	"quo @ x/cfeminter/types.LinearMinting.AmountToMint : sdk/types.Dec.QuoInt64":                                "(time.Time.UnixMilli(<*time.Time>) - time.Time.UnixMilli(<time.Time>))",
-	"quo @ x/cfeminter/types.LinearMinting.CalculateInflation : sdk/types.Dec.QuoInt64":                          "time.Time.Sub(<*time.Time>,<time.Time>)",
-	"quo @ x/cfevesting/keeper.Keeper.UnlockUnbondedContinuousVestingAccountCoins : sdk/types.Dec.Quo":           "types.NewDecFromInt(types.Coins.AmountOf(types.ContinuousVestingAccount.GetVestingCoins(types.AccountKeeper.GetAccount(…,…,…).(*sdk/x/auth/vesting/types.ContinuousVestingAccount)#0,types.Context.BlockTime(<sdk/types.Context>)),<*sdk/types.Coin>.Denom))",
+// vettedSemantic: numeric vetting arguments, keyed by class, operation and the semantic signature of the operand
+// (semsig.go). One line of reason each; shared by C10 and C20.
+var vettedSemantic = map[string]string{
+	"coinsub sub | ops{add,sub} from{<sdk/types.DecCoins>,State.Remains,nil,types.BankKeeper.GetAllBalances()}":                                                                "minus what this sub-distributor already swept into the main account (or took over from an internal state, whose remains were zeroed in the list at the same time): the balance grew by exactly that amount, so the difference stays the un-booked part (C03)",
+	"coinsub sub | ops{add} from{State.Remains,nil,types.BankKeeper.GetAllBalances()}":                                                                                         "main balance minus recorded remains: non-negative exactly when the books match (C03); C03.order guards the one structural way to break it",
+	"coinsub sub | ops{mul,quo,trunc} from{BaseVestingAccount.OriginalVesting,Coin.Amount,Coin.Denom,types.Coins.AmountOf(),types.ContinuousVestingAccount.GetVestingCoins()}": "OriginalVesting minus amount*OV/vesting (truncated): amount <= locked <= vesting by the IsAllLTE guard, so the difference is <= OV (numeric part of C07)",
+	"coinsub sub | ops{mul,sub} from{<sdk/types.DecCoins>,DestinationShare.Share,nil}":                                                                                         "share*inflow is subtracted from the remainder; shares are validated to sum below 1, so the remainder stays non-negative (numeric argument of C03/C04, not decided here) / burn share: same argument as above (burn share + shares < 1 by CheckIfSharesSumIsBetween0And1)",
+	"coinsub sub | ops{} from{BaseVestingAccount.OriginalVesting,Coin.Denom,const:1}":                                                                                          "the one-unit compensation is subtracted only when less than the requested amount was unlocked, which implies OriginalVesting is still positive (numeric part of C07)",
+	"int64 Int64 | ops{} from{Coin.Amount}": "the deferred gauge is registered only under toWithdraw.IsInt64(); the named result it reads is NewCoin(denom, toWithdraw) on the only return that follows",
+	"newcoin NewCoin | ops{add,sub} from{VestingPool.InitiallyLocked,VestingPool.Sent,VestingPool.Withdrawn,types.ZeroInt()}":                                           "sum of GetCurrentlyLocked of matured pools: non-negative by the pool ledger invariant (C05: withdrawn+sent <= initially locked)",
+	"newcoin NewCoin | ops{mul,quo,trunc} from{BaseVestingAccount.OriginalVesting,Coin.Amount,types.Coins.AmountOf(),types.ContinuousVestingAccount.GetVestingCoins()}": "amount = truncated quotient of non-negative quantities (numeric part of C07); denomination is that of a validated coin",
+	"newcoin NewCoin | ops{mul,sub,trunc} from{<math.Int>,<sdk/types.Dec>}":                                                                                             "amount*(1-free) truncated with 0 <= free <= 1 (vesting-type validation) and amount validated non-negative",
+	"quo quo | ops{sub} from{time.Time.UnixMilli()}":                                                                                                                    "divisor = period length in ms; validation orders end strictly after start and C10 bounds periods to >= 1 s",
+	"quo quo | ops{} from{time.Time.Sub()}":                                                                                                                             "divisor = period length in ns; same argument / divisor = period length in ns; validation orders end strictly after start",
+	"quo quo | ops{} from{types.Coins.AmountOf(),types.ContinuousVestingAccount.GetVestingCoins()}":                                                                     "divisor = still-vesting amount of the denomination; under coin.Amount > 0 and amount <= locked <= vesting it is positive",
 }
